@@ -88,4 +88,64 @@ theorem beforeLock_run (cfg : Cfg) (ts : Int) (hts : 0 ≤ ts) (hlen : (intToByt
   have : (natOfBytesBE (intToBytes ts) : Int) = ts := C15.deadline_readback ts hts
   rw [this]
 
+set_option maxHeartbeats 800000 in
+/-- **C16, the between-lock (`push d<b> check_timestamp_verify push d<e> check_timestamp not`), exact
+    outcome**: unlike the bare before-lock (K1), its first clause already refuses a timestamp ahead of
+    the clock, so what it leaves is true exactly for `b ≤ t < e` within the slack; outside
+    `b ≤ t ∧ slack` it ends in the VERIFY error -/
+theorem betweenLock_run (cfg : Cfg) (b e : Int) (hb0 : 0 ≤ b) (he0 : 0 ≤ e)
+    (hlb : (intToBytes b).length ≤ cfg.lim.maxItemSize) (hlb2 : (intToBytes b).length < 65536)
+    (hle : (intToBytes e).length ≤ cfg.lim.maxItemSize) (hle2 : (intToBytes e).length < 65536)
+    (sh : Shared) (count : Nat) (t thr : Int) (hr : sh.returned = false)
+    (ht : lookupC tsKey sh.cache = some (.atom (.int t))) (hthr : cfg.tsThreshold = some thr)
+    (h1 : 1 ≤ cfg.lim.maxItemSize) (hroom : sh.stack.length < cfg.lim.maxItems) :
+    Ends (instrTable H C cfg) cfg.lim (topFrame (timestampBetweenLock b e false) count) sh
+      (fun r => if b ≤ t ∧ (thr ≤ 0 ∨ t - cfg.now < thr)
+                then ∃ top, Res.summary r = .ok (top :: sh.stack) ∧ truthy top = decide (t < e)
+                else Res.summary r = .error (.user .see)) := by
+  have hbytes : timestampBetweenLock b e false =
+      pushB (intToBytes b) ++ (opc CTSV ++ (pushB (intToBytes e) ++ (opc CTS ++ opc NOT))) := by
+    simp [timestampBetweenLock, timestampAfterLock, timestampBeforeLock, Tools.pushInt, pushB, List.append_assoc]
+  rw [hbytes]
+  unfold topFrame
+  generalize hl : (pushB (intToBytes b) ++ (opc CTSV ++ (pushB (intToBytes e) ++ (opc CTS ++ opc NOT)))).length = len
+  have hcap : len < len + 1 := by omega
+  have hneb : intToBytes b ≠ [] := C10.encode_ne_nil b
+  have hposb : 0 < (intToBytes b).length := by cases h : intToBytes b with | nil => exact absurd h hneb | cons _ _ => simp
+  have hnee : intToBytes e ≠ [] := C10.encode_ne_nil e
+  have hpose : 0 < (intToBytes e).length := by cases h : intToBytes e with | nil => exact absurd h hnee | cons _ _ => simp
+  refine Ends.step (fun r h => run_pushB H C cfg _ sh (intToBytes b) _ r hposb hlb2 rfl hcap hr hlb hroom h) ?_
+  dsimp only
+  have hcond := C15.refund_time_condition t cfg.now thr b hb0
+  by_cases hw : b ≤ t ∧ (thr ≤ 0 ∨ t - cfg.now < thr)
+  · have hacc : tsAccept t cfg.now thr (intToBytes b) = true := by rw [hcond]; simpa using hw
+    refine Ends.step (fun r h => run_ctsv_ok H C cfg _ _ (pushB (intToBytes e) ++ (opc CTS ++ opc NOT)) (intToBytes b) sh.stack t thr r rfl hcap hr rfl hneb ht hthr h1 hroom hacc h) ?_
+    dsimp only
+    refine Ends.step (fun r h => run_pushB H C cfg _ _ (intToBytes e) _ r hpose hle2 rfl hcap hr hle hroom h) ?_
+    dsimp only
+    refine Ends.step (fun r h => run_cts H C cfg _ _ (opc NOT) (intToBytes e) sh.stack t thr r rfl hcap hr rfl hnee ht hthr h1 hroom h) ?_
+    dsimp only
+    refine Ends.step (fun r h => run_not H C cfg _ _ [] (boolBytes (tsAccept t cfg.now thr (intToBytes e))) sh.stack r (by simp) hcap hr rfl
+      (by cases tsAccept t cfg.now thr (intToBytes e) <;> simp [boolBytes] <;> omega) hroom h) ?_
+    dsimp only
+    refine ⟨_, TSteps.nil rfl, ?_⟩
+    show (if b ≤ t ∧ (thr ≤ 0 ∨ t - cfg.now < thr) then _ else _)
+    rw [if_pos hw]
+    refine ⟨_, rfl, ?_⟩
+    rw [notBytes_bool, beforeLock_value_iff]
+    have : (natOfBytesBE (intToBytes e) : Int) = e := C15.deadline_readback e he0
+    rw [this]
+    have hiff : (t < e ∨ (thr > 0 ∧ t - cfg.now ≥ thr)) ↔ t < e := by
+      constructor
+      · rintro (h | ⟨h1, h2⟩)
+        · exact h
+        · rcases hw.2 with h0 | h0 <;> omega
+      · exact Or.inl
+    exact decide_eq_decide.mpr hiff
+  · have hacc : tsAccept t cfg.now thr (intToBytes b) = false := by rw [hcond]; simpa using hw
+    refine ⟨_, run_ctsv_fail H C cfg _ _ (pushB (intToBytes e) ++ (opc CTS ++ opc NOT)) (intToBytes b) sh.stack t thr rfl hcap hr rfl hneb ht hthr h1 hroom hacc, ?_⟩
+    show (if b ≤ t ∧ (thr ≤ 0 ∨ t - cfg.now < thr) then _ else _)
+    rw [if_neg hw]
+    rfl
+
 end TV.C16
